@@ -99,13 +99,15 @@ Split(vs) ==
   ELSE IF n = 3 /\ (~IsIntegral(vs[3]) \/ vs[3].n < 0) THEN VErr
   ELSE LET s == vs[1].s  sep == vs[2].s
            count == IF n = 3 THEN IntArg(vs[3]) ELSE 0 - 1
-       IN IF Len(s) = 0 /\ n = 3 THEN Open              \* empty subject with an explicit count: open
+       IN IF Len(s) = 0 /\ n = 3 /\ Len(sep) = 0 THEN Open   \* empty subject, empty separator, explicit count: open
           ELSE IF Len(sep) = 0
           THEN \* one element per code point; with a count the rest stays together
                (IF count < 0 \/ count >= Len(s) THEN Arr([i \in 1..Len(s) |-> Str(<<s[i]>>)])
                 ELSE Arr([i \in 1..(count + 1) |->
                             IF i <= count THEN Str(<<s[i]>>) ELSE Str(SubSeq(s, count + 1, Len(s)))]))
-          ELSE IF Len(s) = 0 THEN Open                   \* empty subject, non-empty separator: open
+          \* (a subject without an occurrence of the separator -- the empty subject included -- gives an array holding
+          \* just the subject, whatever the count; this was Open for the empty subject until the round-10 audit,
+          \* because the implementation returned [] there)
           ELSE Arr(SplitFrom(s, sep, 1, 1, count))
 
 \* Unicode White_Space; only ASCII blanks and U+3000 are exercised by the corpus
